@@ -283,14 +283,14 @@ Qed.
 Lemma step_fuel mk d k s : step mk d k s <> DOutOfFuel.
 Proof.
   destruct k; unfold step; try discriminate.
-  - destruct (load_lib (load_item (st_objs s)) mk (items_of d LImages) [] (st_errs s)) as [[v e] ab]. destruct ab; discriminate.
-  - destruct (load_lib (load_item (st_objs s)) mk (items_of d LEffects) [] (st_errs s)) as [[v e] ab]. destruct ab; discriminate.
-  - destruct (load_lib (load_item (st_objs s)) mk (items_of d LMaterials) [] (st_errs s)) as [[v e] ab]. destruct ab; discriminate.
-  - destruct (load_lib (load_item (st_objs s)) mk (items_of d LAnimations) [] (st_errs s)) as [[v e] ab]. destruct ab; discriminate.
-  - destruct (load_lib (load_item (st_objs s)) mk (items_of d LGeometry) [] (st_errs s)) as [[v e] ab]. destruct ab; discriminate.
-  - destruct (load_lib (load_item (st_objs s)) mk (items_of d LControllers) [] (st_errs s)) as [[v e] ab]. destruct ab; discriminate.
-  - destruct (load_lib (load_item (st_objs s)) mk (items_of d LLights) [] (st_errs s)) as [[v e] ab]. destruct ab; discriminate.
-  - destruct (load_lib (load_item (st_objs s)) mk (items_of d LCameras) [] (st_errs s)) as [[v e] ab]. destruct ab; discriminate.
+  - destruct (load_lib (load_any (st_objs s)) mk (items_of d LImages) [] (st_errs s)) as [[v e] ab]. destruct ab; discriminate.
+  - destruct (load_lib (load_any (st_objs s)) mk (items_of d LEffects) [] (st_errs s)) as [[v e] ab]. destruct ab; discriminate.
+  - destruct (load_lib (load_any (st_objs s)) mk (items_of d LMaterials) [] (st_errs s)) as [[v e] ab]. destruct ab; discriminate.
+  - destruct (load_lib (load_any (st_objs s)) mk (items_of d LAnimations) [] (st_errs s)) as [[v e] ab]. destruct ab; discriminate.
+  - destruct (load_lib (load_any (st_objs s)) mk (items_of d LGeometry) [] (st_errs s)) as [[v e] ab]. destruct ab; discriminate.
+  - destruct (load_lib (load_any (st_objs s)) mk (items_of d LControllers) [] (st_errs s)) as [[v e] ab]. destruct ab; discriminate.
+  - destruct (load_lib (load_any (st_objs s)) mk (items_of d LLights) [] (st_errs s)) as [[v e] ab]. destruct ab; discriminate.
+  - destruct (load_lib (load_any (st_objs s)) mk (items_of d LCameras) [] (st_errs s)) as [[v e] ab]. destruct ab; discriminate.
   - destruct (load_node_groups mk (st_objs s) (node_groups_of d) (st_nodes s) (st_errs s)) as [[[l e] ab] oof] eqn:E.
     rewrite (load_node_groups_fuel _ _ _ _ _ _ _ _ _ E). destruct ab; discriminate.
   - destruct (load_scenes mk (st_objs s) (scenes_of d) [] (st_errs s)) as [[[l e] ab] oof] eqn:E.
@@ -868,3 +868,99 @@ Proof.
   - apply (load_child_is_reading sc o nodes pre l c y Hnd Hlib C R3); [apply Hc; left; reflexivity|assumption].
   - apply IH; [intros c0 H0; apply Hc; right; exact H0|assumption].
 Qed.
+
+(* ---------------------------------------------------------------- effect-internal links *)
+
+Lemma eget_eset_same sc k v : eget (eset sc k v) k = Some v.
+Proof.
+  unfold eget, eset. induction sc as [|[k' v'] r IH]; simpl.
+  - rewrite N.eqb_refl. reflexivity.
+  - destruct (N.eqb k k') eqn:E; simpl; rewrite ?E; [reflexivity|exact IH].
+Qed.
+
+Lemma eget_eset_other sc k v k' : k' <> k -> eget (eset sc k v) k' = eget sc k'.
+Proof.
+  unfold eget, eset. intro H. induction sc as [|[k0 v0] r IH]; simpl.
+  - destruct (N.eqb k' k) eqn:E; [apply N.eqb_eq in E; contradiction|reflexivity].
+  - destruct (N.eqb k k0) eqn:E; simpl.
+    + apply N.eqb_eq in E. subst k0. destruct (N.eqb k' k) eqn:E2; [apply N.eqb_eq in E2; contradiction|reflexivity].
+    + destruct (N.eqb k' k0); [reflexivity|exact IH].
+Qed.
+
+Lemma eset_in sc k v k' v' : In (k', v') (eset sc k v) -> (k', v') = (k, v) \/ In (k', v') sc.
+Proof.
+  unfold eset. induction sc as [|[k0 v0] r IH]; simpl.
+  - intros [H|[]]; left; symmetry; exact H.
+  - destruct (N.eqb k k0) eqn:E; simpl.
+    + apply N.eqb_eq in E. subst k0. intros [H|H]; [left; symmetry; exact H|right; right; exact H].
+    + intros [H|H]; [right; left; exact H|]. destruct (IH H) as [A|A]; [left; exact A|right; right; exact A].
+Qed.
+
+(* whatever is in the scope after the newparams was put there by a newparam of THIS effect *)
+Definition from_params (ps : list eparam) (k : ident) (v : eobj) : Prop :=
+  match v with
+  | ESurface u img => In (PSurface k u img) ps
+  | ESampler u _ => exists src, In (PSampler k u src) ps
+  | EValue => In (PValue k) ps
+  end.
+
+Lemma load_params_scope o : forall ps sc acc sc' acc',
+  load_params o ps sc acc = Ok (sc', acc') ->
+  forall k v, In (k, v) sc' -> In (k, v) sc \/ from_params ps k v.
+Proof.
+  induction ps as [|p r IH]; intros sc acc sc' acc' H k v Hin; simpl in H.
+  - inversion H. subst. left. exact Hin.
+  - destruct p as [sid u img|sid u src|sid].
+    + destruct (lookup o LImages img); [|discriminate].
+      destruct (IH _ _ _ _ H k v Hin) as [A|A].
+      * destruct (eset_in _ _ _ _ _ A) as [B|B]; [inversion B; subst; right; simpl; left; reflexivity|left; exact B].
+      * right. destruct v; simpl in *; [right; exact A|destruct A as [s A]; exists s; right; exact A|right; exact A].
+    + destruct (eget sc src) as [[su simg|? ?|]|] eqn:E; try discriminate.
+      destruct (IH _ _ _ _ H k v Hin) as [A|A].
+      * destruct (eset_in _ _ _ _ _ A) as [B|B]; [inversion B; subst; right; simpl; exists src; left; reflexivity|left; exact B].
+      * right. destruct v; simpl in *; [right; exact A|destruct A as [s A]; exists s; right; exact A|right; exact A].
+    + destruct (IH _ _ _ _ H k v Hin) as [A|A].
+      * destruct (eset_in _ _ _ _ _ A) as [B|B]; [inversion B; subst; right; simpl; left; reflexivity|left; exact B].
+      * right. destruct v; simpl in *; [right; exact A|destruct A as [s A]; exists s; right; exact A|right; exact A].
+Qed.
+
+Lemma fallback_sampler_in (sc : escope) name u :
+  match List.find (fun kv => match snd kv with ESampler _ i => N.eqb i name | _ => false end) sc with
+  | Some (_, ESampler u' _) => Some u'
+  | _ => None
+  end = Some u -> exists k i, In (k, ESampler u i) sc.
+Proof.
+  destruct (List.find _ sc) as [[k v]|] eqn:F; [|discriminate].
+  destruct v as [? ?|u0 i0|]; try discriminate. intro H. inversion H. subst.
+  apply find_some in F. exists k, i0. exact (proj1 F).
+Qed.
+
+Lemma dget_in (sc : escope) name v : dget N.eqb sc name = Some v -> In (name, v) sc.
+Proof.
+  induction sc as [|[k w] r IH]; simpl; [discriminate|].
+  destruct (N.eqb name k) eqn:Ek; [apply N.eqb_eq in Ek; subst; intro H; inversion H; left; reflexivity|].
+  intro H. right. apply IH. exact H.
+Qed.
+
+Lemma find_sampler_in sc name u : find_sampler sc name = Some u -> exists k i, In (k, ESampler u i) sc.
+Proof.
+  unfold find_sampler.
+  destruct (eget sc name) as [v|] eqn:E; [|apply fallback_sampler_in].
+  destruct v as [a b|u0 i0|]; [apply fallback_sampler_in| |apply fallback_sampler_in].
+  intro H. inversion H. subst. exists name, i0. apply dget_in. exact E.
+Qed.
+
+(* an effect sees the document only through the image library: nothing of another effect *)
+Lemma load_params_images o o' : lib_list o LImages = lib_list o' LImages ->
+  forall ps sc acc, load_params o ps sc acc = load_params o' ps sc acc.
+Proof.
+  intro H. induction ps as [|p r IH]; intros sc acc; simpl; [reflexivity|].
+  destruct p as [sid u img|sid u src|sid].
+  - unfold lookup. rewrite H. destruct (spec_lookup (lib_list o' LImages) img); [apply IH|reflexivity].
+  - destruct (eget sc src) as [[? ?|? ?|]|]; try reflexivity. apply IH.
+  - apply IH.
+Qed.
+
+Lemma load_effect_isolated o o' b : lib_list o LImages = lib_list o' LImages ->
+  load_effect_body o b = load_effect_body o' b.
+Proof. intro H. unfold load_effect_body. rewrite (load_params_images o o' H). reflexivity. Qed.
